@@ -719,7 +719,7 @@ def run_c07(chk):
     for t_, ops_ in ecases:
         # splitting a text node that is not the last child, then querying at once
         ops_.insert(rng.randrange(len(ops_) + 1), "st:h%d:1" % rng.randint(1, 9))
-    eimpl = lib.run_lines(lib.build_harness(), [lib.req("dom", t_, DC.QUERIES + ";//node()[not(self::text())];(//*|//comment())[last()]", *ops_)
+    eimpl = lib.run_lines(lib.build_harness(), [lib.req("dom", t_, DC.battery("//node()[not(self::text())];(//*|//comment())[last()]"), *ops_)
                                                  for t_, ops_ in ecases], timeout=900, per_line_resume=True)
     for (t_, ops_), a in zip(ecases, eimpl):
         for i, x in enumerate(D.split_records(a)):
@@ -1279,7 +1279,7 @@ def run_c19(chk):
             if extra[-1].startswith("st") or extra[-1].startswith("ct"):
                 hh.shadow.append("text")
         hist.append((t, ops + extra))
-    himpl = lib.run_lines(h, [lib.req("dom", t, DC.QUERIES + ";string(/*);//text();count(//text())", *ops) for t, ops in hist],
+    himpl = lib.run_lines(h, [lib.req("dom", t, DC.battery("string(/*);//text();count(//text())"), *ops) for t, ops in hist],
                           timeout=900, per_line_resume=True)
     edited_states = 0
     for (t, ops), a in zip(hist, himpl):
